@@ -11,10 +11,10 @@ use std::time::{Duration, Instant};
 // H4: under the guard the cache TTL reads the (virtual) tokio clock
 #[cfg(anytls_verif)]
 use std::time::Duration;
-#[cfg(anytls_verif)]
-use tokio::time::Instant;
 use tokio::net::lookup_host;
 use tokio::sync::RwLock;
+#[cfg(anytls_verif)]
+use tokio::time::Instant;
 use tracing::{debug, info, trace};
 use trust_dns_resolver::TokioAsyncResolver;
 use trust_dns_resolver::config::{NameServerConfig, Protocol, ResolverConfig, ResolverOpts};
